@@ -176,7 +176,7 @@ theorem valueLines_reread {v : Bytes} (h : noLeadingEmptyLine v = true) :
   | nil => exact absurd hv hne
   | cons first rest =>
     rw [hv] at h
-    by_cases hb : hasPrefix first [32] ∨ hasPrefix first [9]
+    by_cases hb : trimLeftSpace first ≠ first
     · simp [if_pos hb]
     · simp only [if_neg hb]
       cases rest with
@@ -272,7 +272,7 @@ theorem partsOK_of_textValue {v : Bytes} (h : textValue v = true) :
     PartsOK (foldParts v).1 (foldParts v).2 := by
   obtain ⟨hne, hnl, _⟩ := valueLines_spec v
   simp only [textValue, Bool.and_eq_true, List.all_eq_true] at h
-  obtain ⟨⟨hwf, hfirst⟩, _⟩ := h
+  obtain ⟨hwf, _⟩ := h
   have hcont : ∀ l ∈ valueLines v, ContOK l := by
     intro l hl
     have := hwf l hl
@@ -282,19 +282,15 @@ theorem partsOK_of_textValue {v : Bytes} (h : textValue v = true) :
   cases hv : valueLines v with
   | nil => exact absurd hv hne
   | cons first rest =>
-    rw [hv] at hcont hfirst
-    by_cases hb : hasPrefix first [32] ∨ hasPrefix first [9]
+    rw [hv] at hcont
+    by_cases hb : trimLeftSpace first ≠ first
     · simp only [if_pos hb]
       exact ⟨trimmed_nil, by simp, hcont⟩
     · simp only [if_neg hb]
       have hf := hcont first (by simp)
-      refine ⟨⟨?_, spaceLenRev_of_trimRightSpace_fixed hf.1⟩, hf.2.1,
+      exact ⟨⟨spaceLen_of_trimLeftSpace_fixed (Classical.not_not.mp hb),
+        spaceLenRev_of_trimRightSpace_fixed hf.1⟩, hf.2.1,
         fun l hl => hcont l (List.mem_cons_of_mem _ hl)⟩
-      simp only [List.headD_cons, wfFirstLine, Bool.or_eq_true] at hfirst
-      rcases hfirst with (h1 | h1) | h1
-      · exact spaceLen_of_trimLeftSpace_fixed (of_decide_eq_true h1)
-      · exact absurd (Or.inl h1) hb
-      · exact absurd (Or.inr h1) hb
 
 theorem textPara_spec {p : Paragraph} (h : textPara p = true) :
     p.order.Nodup ∧
